@@ -319,4 +319,252 @@ example : GoodScript [1, 2, 3, 4] ⟨[[1], [], [2, 3], [4]], .eof⟩ ∧
     exact Cut.next _ _ _ (Cut.next _ _ _ (Cut.torn 1 [2, 3, 4] [.close] 2))
   · intro f hf _ hl; cases hf; simp at hl
 
+/-- **Resolve returns the hash of the manifest file.**  Whenever `Resolve(name)` (a plain name, no `@digest`)
+    answers a digest, a manifest file exists at `manifestPath(name)`, the digest is the hash of exactly its
+    bytes, no manifest is touched, and — if the blob slot of that digest was trusted — the bytes are now
+    retrievable as a blob of that size. -/
+theorem resolve_hash_of_file (hash : Bytes → Digest) (k : Disk) (name : Bytes) (d' : Digest)
+    (hnd : (splitNameDigest name).2 = [])
+    (h : (resolve hash k name).2 = .digest d') :
+    ∃ want data, nameToPath (splitNameDigest name).1 = some want ∧
+      manGet k.mans (manifestPathOf k.mans want) = some data ∧ d' = hash data ∧
+      (resolve hash k name).1.mans = k.mans ∧
+      (data ≠ [] → Trusted hash (k.blob (hash data)) (hash data) data.length →
+        getB (resolve hash k name).1 (hash data) = .entry data.length) := by
+  unfold resolve at h ⊢
+  simp only [hnd, ne_eq, not_true_eq_false, if_false] at h ⊢
+  cases hp : nameToPath (splitNameDigest name).1 with
+  | none => simp [hp] at h
+  | some want =>
+    simp only [hp] at h ⊢
+    cases hm : manGet k.mans (manifestPathOf k.mans want) with
+    | none => simp [hm] at h
+    | some data =>
+      simp only [hm] at h ⊢
+      have hok : (put hash k (hash data) data.length ⟨[data], .eof⟩).2 = .ok := by
+        unfold put; exact copyNamed_exact_ok hash _ data
+      simp only [hok, Out.digest.injEq] at h ⊢
+      refine ⟨want, data, rfl, hm, h.symm, rfl, ?_⟩
+      intro hne ht
+      have hsz : data.length ≠ 0 := by intro e; exact hne (List.eq_nil_of_length_eq_zero e)
+      exact (put_ok_retrievable hash k (hash data) data.length _ hsz ht hok).1
+
+/-- **Link then Resolve (partial).**  `Link(name, d) = ok` and `Resolve(name) = d`, PROVIDED the blob file's
+    bytes hash to `d` and the name is not currently linked to a manifest of the same size (the guard excludes
+    exactly finding F8; a same-size manifest that happens to be the same bytes is excluded too, harmlessly).
+    What is missing for the full statement: `Link` must not apply the same-size shortcut to the mutable
+    manifest name (proposed_fixes/C08-F8.patch; see `link_then_resolve_fixed`). -/
+theorem link_then_resolve_partial (hash : Bytes → Digest) (k : Disk) (name : Bytes) (d : Digest)
+    (f : Bytes) (want : MPath)
+    (hat : splitNameDigest name = (name, []))
+    (hp : nameToPath name = some want)
+    (hb : k.blob d = some f) (hh : hash f = d)
+    (hguard : (manGet k.mans (manifestPathOf k.mans want)).map List.length ≠ some f.length) :
+    (link hash false k name d).2 = .ok ∧
+    (resolve hash (link hash false k name d).1 name).2 = .digest d := by
+  subst hh
+  have hlink : link hash false k name (hash f) =
+      ({ k with mans := manSet k.mans (manifestPathOf k.mans want) (some f) }, .ok) := by
+    unfold link
+    simp only [hp, hb, Bool.false_eq_true, if_false]
+    rw [copyNamed_exact_file hash _ f hguard, copyNamed_exact_ok]
+  rw [hlink]
+  refine ⟨rfl, ?_⟩
+  unfold resolve
+  simp only [hat, ne_eq, not_true_eq_false, if_false, hp, manifestPathOf_manSet, manGet_manSet_same]
+  have hok : ∀ k', (put hash k' (hash f) f.length ⟨[f], .eof⟩).2 = .ok := by
+    intro k'; unfold put; exact copyNamed_exact_ok hash _ f
+  simp only [hok]
+
+/-- with the repaired `Link` the guard on the old manifest disappears -/
+theorem link_then_resolve_fixed (hash : Bytes → Digest) (k : Disk) (name : Bytes) (d : Digest)
+    (f : Bytes) (want : MPath)
+    (hat : splitNameDigest name = (name, []))
+    (hp : nameToPath name = some want)
+    (hb : k.blob d = some f) (hh : hash f = d) (hf : f ≠ []) :
+    (link hash true k name d).2 = .ok ∧
+    (resolve hash (link hash true k name d).1 name).2 = .digest d := by
+  subst hh
+  have hz : f.length ≠ 0 := by intro e; exact hf (List.eq_nil_of_length_eq_zero e)
+  have hlink : link hash true k name (hash f) =
+      ({ k with mans := manSet k.mans (manifestPathOf k.mans want) (some f) }, .ok) := by
+    unfold link
+    simp only [hp, hb, if_true, hz, if_false, copyNamed_exact_ok]
+  rw [hlink]
+  refine ⟨rfl, ?_⟩
+  unfold resolve
+  simp only [hat, ne_eq, not_true_eq_false, if_false, hp, manifestPathOf_manSet, manGet_manSet_same]
+  have hok : ∀ k', (put hash k' (hash f) f.length ⟨[f], .eof⟩).2 = .ok := by
+    intro k'; unfold put; exact copyNamed_exact_ok hash _ f
+  simp only [hok]
+
+/-- non-vacuity of `link_then_resolve_partial`: name `h/n/m:t`, a 3-byte blob, nothing linked yet -/
+example : splitNameDigest nm = (nm, []) ∧ (nameToPath nm).isSome = true ∧
+    (manGet Disk.empty.mans (manifestPathOf Disk.empty.mans [[0x68], [0x6e], [0x6d], [0x74]])).map List.length
+      ≠ some 3 := by decide
+/-! ## every history (no crash, no chunked writes) -/
+
+/-- every blob file is empty or hashes to its name -/
+def BlobOK (hash : Bytes → Digest) (k : Disk) : Prop :=
+  ∀ d f, k.blob d = some f → f = [] ∨ hash f = d
+
+def FileOKFor (hash : Bytes → Digest) (d : Digest) (st : FileSt) : Prop :=
+  ∀ f, st = some f → f = [] ∨ hash f = d
+
+theorem afterStat_effs_fail (hash : Bytes → Digest) (trunc : Bool) (d : Digest) (size : Nat) (s : Script)
+    (hsz : size ≠ 0) (hne : (copyLoop hash d size 0 [] s.chunks s.fin).2 ≠ .ok) :
+    (afterStat hash trunc d size s).1 =
+      .openCreate trunc :: ((copyLoop hash d size 0 [] s.chunks s.fin).1 ++ [.truncate 0, .close]) := by
+  unfold afterStat
+  simp only [hsz, if_false]
+  first
+    | (split
+       · next h => exact absurd h hne
+       · rfl)
+    | simp
+
+theorem run_trunc_tail (es : List Eff) (st : FileSt) :
+    run (es ++ [.truncate 0, .close]) st = none ∨ run (es ++ [.truncate 0, .close]) st = some [] := by
+  rw [run_append]
+  cases run es st with
+  | none => left; rfl
+  | some f => right; simp [run, applyEff, truncTo, zeros]
+
+/-- without a crash `copyNamedFile` leaves the file as it was (same size), empty, or complete and verified -/
+theorem copyNamed_final (hash : Bytes → Digest) (st : FileSt) (d : Digest) (size : Nat) (s : Script)
+    (h0 : FileOKFor hash d st) : FileOKFor hash d (run (copyNamedEffs hash st d size s).1 st) := by
+  unfold copyNamedEffs
+  split
+  · exact h0
+  · next hne =>
+    by_cases hsz : size = 0
+    · subst hsz
+      intro f hf
+      left
+      cases st with
+      | none => simp [afterStat, run, applyEff] at hf; exact hf
+      | some g =>
+        have hg : g.length ≠ 0 := by intro e; apply hne; simp [e]
+        have : statTrunc (some g) 0 = true := by simp [statTrunc]; omega
+        simp [afterStat, this, run, applyEff] at hf; exact hf
+    · by_cases hok : (copyLoop hash d size 0 [] s.chunks s.fin).2 = .ok
+      · rw [afterStat_effs_ok _ _ _ _ _ hsz hok]
+        obtain ⟨g, hopen, hg⟩ := open_short st size hne hsz
+        have := copyLoop_ok hash d size g hg s.chunks [] s.fin (seenOK_nil hash d size hsz) hok
+        simp only [overlay_nil, List.nil_append] at this
+        intro f hf
+        simp only [run_cons, hopen, run_append, this.1] at hf
+        simp [run, applyEff] at hf
+        right; rw [← hf]; exact this.2.2
+      · rw [afterStat_effs_fail _ _ _ _ _ hsz hok]
+        intro f hf
+        simp only [run_cons] at hf
+        rcases run_trunc_tail (copyLoop hash d size 0 [] s.chunks s.fin).1
+          (applyEff (.openCreate (statTrunc st size)) st) with h | h
+        · rw [h] at hf; cases hf
+        · rw [h] at hf; cases hf; left; rfl
+
+theorem put_blobOK (hash : Bytes → Digest) (k : Disk) (d : Digest) (size : Nat) (s : Script)
+    (h : BlobOK hash k) : BlobOK hash (put hash k d size s).1 := by
+  intro d' f hf
+  unfold put at hf
+  by_cases hd : d' = d
+  · subst hd
+    simp only [setBlob_same] at hf
+    exact copyNamed_final hash (k.blob d') d' size s (fun f hf => h d' f hf) f hf
+  · rw [setBlob_other _ _ _ _ hd] at hf
+    exact h d' f hf
+
+def noChunk : Op → Bool
+  | .chunk .. => false
+  | _ => true
+
+theorem stepOp_blobOK (hash : Bytes → Digest) (fixed : Bool) (k : Disk) (op : Op) (hn : noChunk op = true)
+    (h : BlobOK hash k) : BlobOK hash (stepOp hash fixed k op).1 := by
+  cases op with
+  | put d size s => exact put_blobOK hash k d size s h
+  | importB size s =>
+    simp only [stepOp, importB]
+    split
+    · next d es _ heq =>
+      unfold importEffs at heq
+      split at heq
+      · cases heq
+      · split at heq
+        · cases heq
+        · simp only [Prod.mk.injEq, Option.some.injEq] at heq
+          obtain ⟨⟨rfl, rfl⟩, _⟩ := heq
+          intro d' f hf
+          by_cases hd : d' = hash s.data
+          · subst hd
+            simp [run, applyEff] at hf
+            right; rw [← hf]
+          · rw [setBlob_other _ _ _ _ hd] at hf
+            exact h d' f hf
+    · exact h
+  | get d => exact h
+  | link name d =>
+    simp only [stepOp, link]
+    split
+    · exact h
+    · split
+      · exact h
+      · split
+        · split
+          · exact h
+          · split
+            · exact h
+            · exact h
+        · exact h
+  | unlink name =>
+    simp only [stepOp, unlink]
+    split
+    · exact h
+    · split <;> exact h
+  | resolve name =>
+    simp only [stepOp, resolve]
+    split
+    · split <;> exact h
+    · split
+      · exact h
+      · split
+        · exact h
+        · split <;> exact put_blobOK hash k _ _ _ h
+  | chunk d size a b cd s => cases hn
+
+/-- **Every history.**  Starting from a disk whose blob files are each empty or correct (in particular the
+    empty disk), after ANY sequence of Put / Import / Get / Link / Unlink / Resolve with arbitrary — faulty —
+    sources (no crash; `Chunked` excluded: finding F10), every blob file is absent, empty, or hashes to its
+    name …  -/
+theorem history_blobs_valid (hash : Bytes → Digest) (fixed : Bool) : ∀ (ops : List Op) (k : Disk),
+    (∀ op ∈ ops, noChunk op = true) → BlobOK hash k → BlobOK hash (runOps hash fixed ops k).1 := by
+  intro ops
+  induction ops with
+  | nil => intro k _ h; exact h
+  | cons op ops ih =>
+    intro k hn h
+    simp only [runOps]
+    exact ih _ (fun o ho => hn o (List.mem_cons_of_mem _ ho))
+      (stepOp_blobOK hash fixed k op (hn op (List.mem_cons_self)) h)
+
+/-- … hence whatever `Get` reports present — under ANY size — has the right content. -/
+theorem history_get_trusted (hash : Bytes → Digest) (fixed : Bool) (ops : List Op)
+    (hn : ∀ op ∈ ops, noChunk op = true) (d : Digest) (n : Nat)
+    (hg : getB (runOps hash fixed ops Disk.empty).1 d = .entry n) :
+    ∃ f, (runOps hash fixed ops Disk.empty).1.blob d = some f ∧ f.length = n ∧ hash f = d := by
+  have hok := history_blobs_valid hash fixed ops Disk.empty hn (by intro d f hf; cases hf)
+  unfold getB at hg
+  cases hb : (runOps hash fixed ops Disk.empty).1.blob d with
+  | none => simp [hb] at hg
+  | some f =>
+    simp only [hb] at hg
+    split at hg
+    · cases hg
+    · next hz =>
+      simp only [Out.entry.injEq] at hg
+      refine ⟨f, rfl, hg, ?_⟩
+      rcases hok d f hb with rfl | h
+      · simp at hz
+      · exact h
+
 end OllamaVerif.C08
